@@ -242,6 +242,64 @@ func runC14L2(r *core.Run) (*core.Violation, func() *core.Violation) {
 	if why != "" {
 		return r.Flag("C14/l2-no-progress-after-faults-stopped", "after a fair drain with no further faults: %s", why), nil
 	}
+	// released: once a closed lease is torn down and its manager gone, the inventory reservation is
+	// returned and another deployment can claim its hostnames (asked through the real services, whose
+	// goroutines stay under the scheduler)
+	type relRes struct {
+		herr map[*mLease]error
+		st   *ctypes.Status
+		err  error
+		done bool
+	}
+	rel := &relRes{herr: map[*mLease]error{}}
+	// first let everything that is still moving come to rest (a manager's exit is reported to the
+	// service through a channel: it must have been consumed before the status is asked for)
+	// (a teardown that failed is retried after a real delay: let time pass until nothing wakes up any more)
+	quiet := func() bool { return len(simrt.Runnable()) == 0 && len(x.s.Pending()) == 0 }
+	for round, calm := 0, 0; round < 120 && calm < 4; round++ {
+		loop.drain(400, quiet)
+		time.Sleep(4 * time.Second)
+		x.s.Settle()
+		if quiet() {
+			calm++
+		} else {
+			calm = 0
+		}
+	}
+	simrt.Go("release-check", func() {
+		other := dtypes.DeploymentID{Owner: testAddr(9).String(), DSeq: 999}
+		for _, l := range x.leases {
+			if l.closedAt != 0 && len(l.hosts) > 0 {
+				rel.herr[l] = <-x.svc.HostnameService().CanReserveHostnames(l.hosts, other)
+			}
+		}
+		rel.st, rel.err = x.svc.Status(context.Background())
+		rel.done = true
+	})
+	loop.drain(600, func() bool { return rel.done })
+	if !rel.done {
+		return r.Flag("C14/l2-no-progress-after-faults-stopped", "the hostname service or the cluster service did not answer a status request under a fair schedule"), nil
+	}
+	if rel.err != nil {
+		panic(rel.err)
+	}
+	want := 0
+	for _, l := range x.leases {
+		if l.closedAt == 0 && !l.deployFail {
+			want++
+		}
+	}
+	if have := len(rel.st.Inventory.Active) + len(rel.st.Inventory.Pending); have != want {
+		return r.Flag("C14/reservation-not-released", "after a fair drain %d reservations are outstanding, %d leases are still alive (L2)", have, want), nil
+	}
+	for _, l := range x.leases {
+		if l.closedAt != 0 && len(l.hosts) > 0 {
+			r.Count("probe:l2-hostnames-release-checked")
+			if rel.herr[l] != nil {
+				return r.Flag("C14/hostnames-not-released", "lease %s is closed and torn down but its hostnames %v cannot be reserved by another deployment: %v (L2)", l.key, l.hosts, rel.herr[l]), nil
+			}
+		}
+	}
 	r.SimTime += int64(loop.steps)
 	r.Count("probe:l2-runs-completed")
 	for _, l := range x.leases {
